@@ -155,6 +155,17 @@ def gen_cases(tier, seed):
                 spec['plan'] = {'faults': [{'at': 't0/s3:UploadPart:2#0', 'phase': 'mid', 'bytes': 3 * MB + 17,
                                             'kind': 'retry500', 'tag': 'FAULT-real'}]}
             cases.append(spec)
+    # executor / subscriber flavours: everything inline in the submitting thread (NonThreadedExecutor, what use_threads=False
+    # selects), no subscribers at all, and duck-typed subscribers offering only some callbacks
+    for s in cases:
+        if s.get('front_end') or s.get('mode') or s.get('yield'):
+            continue
+        r = rng.random()
+        if r < 0.12:
+            s['executor'] = 'nonthreaded'
+        for t in s['transfers']:
+            if 'subs' not in t and rng.random() < 0.12:
+                t['subs'] = rng.choice([None, [{'only': ['on_done']}], [{'only': ['on_progress']}]])
     rng.shuffle(cases)
     return cases
 
